@@ -949,3 +949,79 @@ Proof.
       intros H; inversion H; apply opid_eqb_refl.
     + intros H; inversion H; apply opid_eqb_refl.
 Qed.
+
+(* ------------------------------------------------------------------ local edits (C09) *)
+From AM Require Import Crdt.LocalProofs.
+
+(* the register after a local update that supersedes the whole register [r] (C03_update_register_spec with
+   r' = r: nothing is kept) *)
+Definition after_reg (id : opid) (a : action) (r : regobs) : regobs :=
+  match a with
+  | APut v => [(id, scalar_vobs v)]
+  | AMake t => [(id, VO t)]
+  | AInc z => inc_reg z r
+  | _ => []
+  end.
+
+Lemma pv_of_new_view pv : pv_of (new_view pv) = match pv with PVO OTable id => PVO OMap id | _ => pv end.
+Proof. destruct pv as [s|[| | |] id]; reflexivity. Qed.
+
+Lemma shell_lookup_mupsert k pv c m k' :
+  shell_lookup k' (mupsert k (new_view pv, c) m) =
+  if keqb k' k then Some (pv_of (new_view pv), c) else shell_lookup k' m.
+Proof. unfold shell_lookup. rewrite mlookup_mupsert. destruct (keqb k' k); reflexivity. Qed.
+
+(* put / put_object / delete of a map key, and an increment of an unconflicted counter: the patch
+   finalize_op emits turns what the view shows for the register before into what it must show after;
+   every other key keeps its entry *)
+Theorem local_patch_sound_map e oid m k id a r pa :
+  match a with
+  | APut _ | ADel => True
+  | AMake t => t <> OTable
+  | AInc _ => exists i c, r = [(i, VC c)]
+  | _ => False
+  end ->
+  local_action (PMap k) id a r = Some pa ->
+  shell_lookup k m = entry_shell r ->
+  exists m',
+    apply_action e (VMap oid m) pa = Some (VMap oid m') /\
+    shell_lookup k m' = entry_shell (after_reg id a r) /\
+    (forall k', k' <> k -> mlookup k' m' = mlookup k' m).
+Proof.
+  intros Ha Hl Hs. destruct a as [v|t| |z| |]; try contradiction; cbn [local_action put_pv del_action] in Hl.
+  - inversion Hl; subst pa. cbn [apply_action]. eexists. split; [reflexivity|]. split.
+    + rewrite shell_lookup_mupsert, keqb_refl. cbn [after_reg entry_shell winner map last length].
+      destruct v; reflexivity.
+    + intros k' Hk. rewrite mlookup_mupsert. apply keqb_false in Hk. rewrite Hk. reflexivity.
+  - inversion Hl; subst pa. cbn [apply_action]. eexists. split; [reflexivity|]. split.
+    + rewrite shell_lookup_mupsert, keqb_refl, pv_of_new_view.
+      cbn [after_reg entry_shell winner map last length pv_of_vobs]. destruct t; try reflexivity. contradiction.
+    + intros k' Hk. rewrite mlookup_mupsert. apply keqb_false in Hk. rewrite Hk. reflexivity.
+  - inversion Hl; subst pa. cbn [apply_action]. eexists. split; [reflexivity|]. split.
+    + unfold shell_lookup. rewrite mlookup_mremove, keqb_refl. reflexivity.
+    + intros k' Hk. rewrite mlookup_mremove. apply keqb_false in Hk. rewrite Hk. reflexivity.
+  - destruct Ha as [i [c ->]]. cbn [length Nat.ltb Nat.leb] in Hl. inversion Hl; subst pa.
+    cbn [entry_shell winner map last length pv_of_vobs Nat.ltb Nat.leb] in Hs.
+    unfold shell_lookup in Hs. destruct (mlookup k m) as [[cv f]|] eqn:L; [|discriminate].
+    inversion Hs as [[Hc Hf]]. destruct cv as [[| | | | | | |x| |]| | |]; try discriminate.
+    cbn [pv_of] in Hc. inversion Hc; subst x. subst f.
+    cbn [apply_action]. rewrite L. cbn [inc_entry]. eexists. split; [reflexivity|]. split.
+    + unfold shell_lookup. rewrite mlookup_mset, keqb_refl, L. reflexivity.
+    + intros k' Hk. rewrite mlookup_mset. apply keqb_false in Hk. rewrite Hk. reflexivity.
+Qed.
+
+(* REFUTED for a conflicted register: two counters conflict, a local increment increments both (the register
+   stays conflicted and the greater id still wins), but the emitted Put carries the FIRST counter's new
+   value and conflict = false *)
+Theorem local_increment_conflict_refuted :
+  exists m k id z r pa,
+    local_action (PMap k) id (AInc z) r = Some pa /\
+    shell_lookup k m = entry_shell r /\
+    forall e m', apply_action e (VMap root_id m) pa = Some (VMap root_id m') ->
+                 shell_lookup k m' <> entry_shell (after_reg id (AInc z) r).
+Proof.
+  exists [([99], (VScalar (SCounter 3), true))], [99], (5, [1]), 1%Z,
+         [((1, [1]), VC 1); ((1, [2]), VC 3)], (PutMap [99] (PVS (SCounter 2)) false).
+  split; [reflexivity|]. split; [reflexivity|].
+  intros e m' H. cbn in H. inversion H; subst m'. vm_compute. discriminate.
+Qed.
